@@ -176,13 +176,13 @@ def handle (line : String) : String :=
       let n ← nat
       let b ← vec num
       let ns ← nat
-      return fmtSubst (Subst.backSubst a n b.toArray (vtab ns fun _ => 0))
+      return fmtSubst (Subst.backSubst a n b.toArray (vtab ns fun _ => (0.0 : Float) / 0.0))
     | "forward" => do
       let a ← mat num
       let n ← nat
       let b ← vec num
       let ns ← nat
-      return fmtSubst (Subst.forwardSubst a n b.toArray (vtab ns fun _ => 0))
+      return fmtSubst (Subst.forwardSubst a n b.toArray (vtab ns fun _ => (0.0 : Float) / 0.0))
     | _ => fail
   match run p line with
   | some s => s
